@@ -79,7 +79,10 @@ struct simk_fd {
 
 	/* Counters. */
 	uint64_t nrecv, nsend, nrecv_after_close, nsend_after_close;
-	uint64_t ncalls_since_mark;	/* recv+send calls since simk_mark() */
+	uint64_t ncalls_since_mark;	/* recv+send calls; the driver zeroes it */
+	uint64_t n_eof, n_inerr, n_outerr;	/* answers given: EOF, hard errors */
+	uint64_t n_in_soft, n_out_soft;	/* EAGAIN/EWOULDBLOCK/EINTR answers */
+	uint64_t n_in_partial, n_out_partial;	/* answers shorter than asked */
 };
 
 extern struct simk_fd simk_fds[SIMK_MAXFD];
